@@ -178,6 +178,15 @@ def _basics(case, ctx, g):
     for fast in (True, False):
         with S.fast_computations(log_prob=fast), S.max_cholesky_size(800):
             ctx.close("log_prob", d.log_prob(v), ref, "direct", cls=lay + (":fast" if fast else ":chol"))
+    # the exact (Cholesky) path stays exact when the joint is larger than max_cholesky_size: a fresh distribution object
+    # (nothing cached yet) asked under a threshold below its size
+    d_fresh, _, _ = _make(case, util.gen(case["seed"]))
+    with S.fast_computations(log_prob=False), S.max_cholesky_size(0):
+        ctx.close("log_prob", d_fresh.log_prob(v), ref, "direct", cls=lay + ":chol:above_size_threshold")
+        Lt = d_fresh.scale_tril
+        Cint = d_fresh.covariance_matrix  # (the factor is of the covariance in the layout the object stores)
+        ctx.close("scale_tril", Lt @ Lt.transpose(-1, -2), Cint.expand(*Lt.shape[:-2], *Cint.shape[-2:]), (1e-7, 1e-7), cls=lay + ":above_size_threshold")
+        ctx.expect("scale_tril_is_lower_triangular", bool((Lt.triu(1) == 0).all()), "scale_tril has entries above the diagonal", layout=lay)
     vs = M + util.randn(g, 3, *b, n, t)
     refs = util.mvn_logpdf(vs.reshape(3, *b, -1), M.reshape(*b, -1), C)
     ctx.close("log_prob", d.log_prob(vs), refs, "direct", cls=lay + ":sample-batch")
